@@ -152,7 +152,10 @@ theorem removetree_ref_valid (fuel : Nat) (t : State) (G : GoodS t) (p : Str) (c
     removetree PR fuel t p = Ref.step t (.removetree p) := by
   have hcs : CleanN cs := TreeLemmas.validate_clean p cs hv
   rw [QueryLemmas.step_one t _ p G.opn rfl (by intro q m e; cases e), hv]
-  simp only [removetree, normRes_of_validate hv, removetreeBody]
+  have hvp : PR.validatepath t p = (t, .ok (absOf cs)) := by
+    show validateOf Ref.step t p = _
+    rw [validateOf_ref t G.opn, hv]
+  simp only [removetree, hvp, removetreeBody]
   obtain ⟨f, rfl⟩ : ∃ f, fuel = f + 1 := ⟨fuel - 1, by omega⟩
   cases hg : t.root.get cs with
   | none =>
@@ -189,13 +192,16 @@ theorem removetree_ref_valid (fuel : Nat) (t : State) (G : GoodS t) (p : Str) (c
         simp only [step1, hne, if_false, hg, upd, emptied, setAt_ne hne, OsLemmas.del_set, hge,
           List.isEmpty_nil, if_true]
 
-/-- … and on a NUL-free path that does not validate (it climbs above the root): the same
-`IllegalBackReference`, nothing changes -/
+/-- … and on a path that does not validate (an invalid character, or it climbs above the root): `validatepath`
+refuses it with the reference's class, nothing changes (since /repo 433aea4; before, a NUL in a component
+that `..` cancels went unseen) -/
 theorem removetree_ref_invalid (fuel : Nat) (t : State) (G : GoodS t) (p : Str) (e : Err)
-    (hn : '\x00' ∉ p) (hv : validate p = .err e) :
+    (hv : validate p = .err e) :
     removetree PR fuel t p = Ref.step t (.removetree p) := by
   rw [QueryLemmas.step_one t _ p G.opn rfl (by intro q m e; cases e), hv]
-  obtain ⟨rfl, hr⟩ := validate_err_noNul hn hv
-  simp [removetree, normRes, ConfineLemmas.normpath_err_of_resolve p hr, fail]
+  have hvp : PR.validatepath t p = (t, .err e) := by
+    show validateOf Ref.step t p = _
+    rw [validateOf_ref t G.opn, hv]
+  simp [removetree, hvp, fail]
 
 end Fs.BaseWalkRm
